@@ -270,6 +270,12 @@ def explore(run_once, max_preempt, limit, seed_prefixes=((),)):
         prefix = stack.pop()
         s, res = run_once(follow(list(prefix)))
         n += 1
+        if n % 250 == 0:
+            # every run builds fresh classes, which the model caches of the library keep alive for good: take what has
+            # survived out of the collector's sight, or each full collection walks all of it again (quadratic slow-down)
+            import gc
+            gc.collect()
+            gc.freeze()
         yield prefix, s, res
         # count preemptions along the executed trace and branch after the prefix
         pre = 0
